@@ -19,7 +19,7 @@ LEVEL = 'exploration'
 TECHNIQUE = ('differential runtime monitor: stdout of the real oslopolicy-checker entry vs Enforcer.enforce on the same '
              'files, credentials/target derived independently by the harness')
 RULE = ('cases = policy files from the expression generator (role, attribute, system/system_scope, rule: leaves over the '
-        'token\'s fields; with/without a default rule; aliases; undefined references) x tokens (the three sample tokens of '
+        'token\'s fields; with/without a default rule; aliases; undefined references; some rules in the legacy list-of-lists spelling) x tokens (the three sample tokens of '
         'the repository, generated project- / domain- / system-scoped tokens with varying roles) x is_admin on/off x with / '
         'without a nested target file x requested rule (none, defined, undefined, helper without colon). Non-trivial = at '
         'least one verdict is `passed` and one `failed`, or a rule is requested; distinct = distinct (policy, token, target, options).')
@@ -35,7 +35,7 @@ MIN = {'evaluations': 500, 'verdict_lines': 1500, 'passed_lines': 200, 'failed_l
        'requested_rule_runs': 100}
 ANCHORS = ['oslo_policy.shell:tool', 'oslo_policy.shell:_try_rule', 'oslo_policy.shell:flatten', 'oslo_policy.policy:Enforcer.enforce']
 REQUIRED_ANCHORS = ['oslo_policy.shell:tool']
-N = {'quick': 1200, 'thorough': 80000}
+N = {'quick': 4000, 'thorough': 80000}
 
 LEAVES = ['role:admin', 'role:member', 'role:x', 'user_id:%(user_id)s', 'project_id:%(project_id)s', 'is_admin:True',
           'system_scope:all', 'system:all', 'system.all:True', 'project.id:%(project_id)s', 'domain.id:d1', '@', '!',
@@ -85,6 +85,11 @@ def gen_case(rnd):
             rules[nme] = gen_rule(rnd, rnd.randint(0, 3), lv)
     if rnd.random() < 0.5:
         rules['default'] = gen_rule(rnd, 1, LEAVES)
+    for nme in list(rules):
+        if rnd.random() < 0.12:
+            # the legacy list-of-lists spelling (JSON and YAML both carry it)
+            rules[nme] = [[rnd.choice(['role:admin', 'role:member', 'is_admin:True', '@', 'rule:helper'])
+                           for _ in range(rnd.randint(1, 2))] for _ in range(rnd.randint(0, 2))]
     if rnd.random() < 0.3:
         rules['alias:x'] = 'rule:svc:a' if 'svc:a' in rules else 'rule:helper'
     target = None
@@ -119,6 +124,8 @@ def closure_text(rules, key):
         body = rules.get(k)
         if body is None:
             body = rules.get('default', '')
+        if not isinstance(body, str):
+            body = json.dumps(body)
         text += ' ' + body
         todo.extend(re.findall(r'rule:([^\s()]+)', body))
     return text
